@@ -737,6 +737,14 @@ Extra:\n{self.extra_map}
                         f"Root fingerprint {xfp} for input #{cnt} not in the hdpubkey_map you supplied"
                     )
 
+                # a path stated for the xpub itself has to be the start of the key's path
+                xpub_path = getattr(hdpub, "root_path", None)
+                if xpub_path and not (named_pub.root_path + "/").startswith(
+                    xpub_path + "/"
+                ):
+                    raise SuspiciousTransaction(
+                        f"path {named_pub.root_path} of input #{cnt} is not below the xpub's path {xpub_path}"
+                    )
                 trimmed_path = ltrim_path(named_pub.root_path, depth=hdpub.depth)
                 if hdpub.traverse(trimmed_path).sec() != named_pub.sec():
                     raise SuspiciousTransaction(
@@ -852,6 +860,14 @@ Extra:\n{self.extra_map}
                             "Do a sweep transaction (1-output) if you want this wallet to cosign."
                         )
 
+                    # a path stated for the xpub itself has to be the start of the key's path
+                    xpub_path = getattr(hdpub, "root_path", None)
+                    if xpub_path and not (named_pub.root_path + "/").startswith(
+                        xpub_path + "/"
+                    ):
+                        raise SuspiciousTransaction(
+                            f"path {named_pub.root_path} of output #{cnt} is not below the xpub's path {xpub_path}"
+                        )
                     trimmed_path = ltrim_path(named_pub.root_path, depth=hdpub.depth)
                     if hdpub.traverse(trimmed_path).sec() != named_pub.sec():
                         raise SuspiciousTransaction(
@@ -958,9 +974,8 @@ Extra:\n{self.extra_map}
             # build hdpubkey_map from PSBT's hdpubs
             hdpubkey_map = {}
             for hdpubkey in self.hd_pubs.values():
-                hdpubkey_map[hdpubkey.root_fingerprint.hex()] = HDPublicKey.parse(
-                    hdpubkey.xpub()
-                )
+                # keep the named key: it knows the path stated for the xpub itself
+                hdpubkey_map[hdpubkey.root_fingerprint.hex()] = hdpubkey
 
         inputs_described = self._describe_basic_multisig_inputs(
             hdpubkey_map=hdpubkey_map,
